@@ -254,6 +254,288 @@ theorem mds_Pre_after_child {Q : (d : Nat) → MTree r d → Prop} {addr : Nat} 
       · exact hQ'
       · exact hQ c (by rw [hAB]; exact List.mem_append_right _ (List.mem_cons_of_mem _ hcB''))
 
+theorem mds_compose_post {addr : Nat} {s s1 s' : MHSt r} {d : Nat} {m m1 m' : MTree r (d + 1)} {child child' : MTree r d}
+    {x : Option DX} {h : SlabID} {As Bs : List SlabID}
+    (e1 : md_ids (d + 1) m = h :: (As ++ (md_ids d child ++ Bs)))
+    (e2 : md_ids (d + 1) m1 = h :: (As ++ (md_ids d child' ++ Bs)))
+    (inner : mds_Post addr s s1 d child child' none) (outer : mds_Post addr s1 s' (d + 1) m1 m' x) :
+    mds_Post addr s s' (d + 1) m m' x := by
+  obtain ⟨f, g, fr⟩ := mds_compose (h := s.heap) (h1 := s1.heap) (h' := s'.heap) (I := md_ids (d + 1) m)
+    (I1 := md_ids (d + 1) m1) (I' := md_ids (d + 1) m') (J := md_ids d child) (J' := md_ids d child')
+    (fun id hid => e1 ▸ List.mem_cons_of_mem _ (List.mem_append_right _ (List.mem_append_left _ hid)))
+    (fun id hid => e2 ▸ List.mem_cons_of_mem _ (List.mem_append_right _ (List.mem_append_left _ hid)))
+    (fun id hid => by
+      rw [e2] at hid; rw [e1]
+      simp only [List.mem_cons, List.mem_append] at hid ⊢
+      rcases hid with h | h | h | h
+      · exact Or.inl (Or.inl h)
+      · exact Or.inl (Or.inr (Or.inl h))
+      · exact Or.inr h
+      · exact Or.inl (Or.inr (Or.inr (Or.inr h))))
+    (fun id hid => by
+      rw [e1] at hid; rw [e2]
+      simp only [List.mem_cons, List.mem_append] at hid ⊢
+      rcases hid with h | h | h | h
+      · exact Or.inl (Or.inl h)
+      · exact Or.inl (Or.inr (Or.inl h))
+      · exact Or.inr h
+      · exact Or.inl (Or.inr (Or.inr (Or.inr h))))
+    inner.fresh inner.gone inner.frame outer.fresh outer.gone outer.frame
+  exact ⟨outer.nodup, outer.addrOk, outer.holds, f, g, fr, outer.ff⟩
+
+section
+variable (T : Nat) (eb : DEnvB r) (rs : DRestruct r)
+
+theorem mds_isUnderflow_tree_some (d : Nat) (t : MTree r d) (x : Option DX) (u : Nat)
+    (hs : (MTree.hdr d t).size < 2^32) (hT : minThr T < 2^32) (hu : MTree.isUnderflow T d t = some u) :
+    MapSlab_IsUnderflow (envD T eb rs) (md_tree d t x) = some (u32 u, true) := by
+  have hmodel : MTree.isUnderflow T d t =
+      if minThr T > (MTree.hdr d t).size then some (minThr T - (MTree.hdr d t).size) else none := by
+    cases d <;> rfl
+  rw [hmodel] at hu
+  by_cases hc : minThr T > (MTree.hdr d t).size
+  · rw [if_pos hc] at hu
+    have hu' : minThr T - (MTree.hdr d t).size = u := Option.some.inj hu
+    have hdec : decide (u32 (minThr T) > u32 (MTree.hdr d t).size) = true := by
+      rw [u32_dgt hT hs]; exact decide_eq_true hc
+    have hsub : u32 (minThr T) - u32 (MTree.hdr d t).size = u32 u := by
+      rw [u32_sub (Nat.le_of_lt hc) hT, hu']
+    cases d with
+    | zero =>
+      have e : MapDataSlab_IsUnderflow (envD T eb rs) (md_data t x) = (u32 u, true) := by
+        show (if false then ((0 : UInt32), false) else
+          if decide (u32 (minThr T) > u32 (MTree.hdr 0 t).size) then (u32 (minThr T) - u32 (MTree.hdr 0 t).size, true)
+          else ((0 : UInt32), false)) = _
+        rw [hdec, hsub]; rfl
+      show some ((MapDataSlab_IsUnderflow (envD T eb rs) (md_data t x)).1,
+        (MapDataSlab_IsUnderflow (envD T eb rs) (md_data t x)).2) = _
+      rw [e]
+    | succ d =>
+      have e : MapMetaDataSlab_IsUnderflow (envD T eb rs) (md_meta t x) = (u32 u, true) := by
+        show (if decide (u32 (minThr T) > u32 (MTree.hdr (d + 1) t).size) then
+          (u32 (minThr T) - u32 (MTree.hdr (d + 1) t).size, true) else ((0 : UInt32), false)) = _
+        rw [hdec, hsub]; rfl
+      show some ((MapMetaDataSlab_IsUnderflow (envD T eb rs) (md_meta t x)).1,
+        (MapMetaDataSlab_IsUnderflow (envD T eb rs) (md_meta t x)).2) = _
+      rw [e]
+  · rw [if_neg hc] at hu; cases hu
+
+end
+
+/-- the model's `afterChild` with `m1` named -/
+theorem mds_afterChild_eq {d : Nat} (T : Nat) (m : MMetaSlab (MTree r d)) (child' : MTree r d) (i : Nat) (c : Ctx) :
+    m.afterChild T child' i c =
+      if MTree.isFull T d child' then (mds_metaAfter m child' i).splitChildSlab child' i c
+      else match MTree.isUnderflow T d child' with
+        | some u => (mds_metaAfter m child' i).mergeOrRebalanceChildSlab T child' i u c
+        | none => .ok (mds_metaAfter m child' i, c.emit (.store m.hdr.id)) := rfl
+
+section
+variable (eb : DEnvB r) (rs : DRestruct r)
+
+/-- what the full theorem assumes ALONG THE PATH of the key (no "neither full nor underflowing" clause): digests /
+    lengths / new child sizes in machine range, header list = headers of the embedded children, every child satisfies the
+    provider's invariant `Q`, the data slab's elements satisfy `P`, belong to the owner address, and it is not inlined -/
+def mds_PathF (cfg : MCfg) (k : MKey) (v : Elem) (P : DG r → Prop) (Q : (d : Nat) → MTree r d → Prop) :
+    (d : Nat) → MTree r d → Ctx → Prop
+  | 0, (sl : MDataSlab r), _ => P sl.elems ∧ sl.hdr.id.addr = cfg.addr ∧ sl.inlined = false
+  | d + 1, (m : MMetaSlab (MTree r d)), c =>
+    (∀ h ∈ m.childHdrs, h.firstKey < 2^64) ∧ m.childHdrs.length < 2^62 ∧
+    m.childHdrs = m.children.map (MTree.hdr d) ∧ (∀ c' ∈ m.children, Q d c') ∧
+    ∃ child : MTree r d, m.children[mds_idx m.childHdrs (k.dig 0)]? = some child ∧
+      mds_rootFlag d child = false ∧
+      mds_PathF cfg k v P Q d child c ∧
+      ∀ ks old child' c1, MTree.set cfg d child k v c = .ok (ks, old, child', c1) → (MTree.hdr d child').size < 2^32
+
+/-- the generated descent on a subtree against the model's `MTree.set`, every branch -/
+def mds_setRelF (cfg : MCfg) (k : MKey) (v : Elem) (depth d : Nat) (t : MTree r d) (x : Option DX) (s : MHSt r) : Prop :=
+  match MTree.set cfg d t k v s.ctx with
+  | .ok (ks, old, t', c') =>
+    ∃ s', MapSlab_Set (envD cfg.T eb rs) (MapMetaDataSlab_Set (envD cfg.T eb rs) depth) (md_tree d t x) s () k (u64 0)
+        (u64 (k.dig 0)) (.key k) (.val v) = some (some (.key ks), old.map .val, none, md_tree d t' x, s') ∧
+      s'.ctx = c' ∧ s'.popped = s.popped ∧ mds_Post cfg.addr s s' d t t' x
+  | .error e =>
+    ∃ root' s', MapSlab_Set (envD cfg.T eb rs) (MapMetaDataSlab_Set (envD cfg.T eb rs) depth) (md_tree d t x) s () k
+        (u64 0) (u64 (k.dig 0)) (.key k) (.val v) = some (none, none, some e, root', s')
+
+/-- one level: from the relation on the child to the relation on the index slab, all three tails -/
+theorem mds_set_meta_full (cfg : MCfg) (k : MKey) (v : Elem) (Q : (d : Nat) → MTree r d → Prop)
+    (hS : MSplitTail cfg.T rs Q) (hM : MMorTail cfg.T rs Q)
+    (hQset : ∀ d (t t' : MTree r d) ks old c c', Q d t → MTree.set cfg d t k v c = .ok (ks, old, t', c') → Q d t')
+    (hT1 : maxThr cfg.T < 2^32) (hT2 : minThr cfg.T < 2^32) (hhk : k.dig 0 < 2^64)
+    (d depth : Nat) (m : MMetaSlab (MTree r d)) (x : Option DX) (s : MHSt r)
+    (hfk : ∀ h ∈ m.childHdrs, h.firstKey < 2^64) (hlen : m.childHdrs.length < 2^62)
+    (hhdrs : m.childHdrs = m.children.map (MTree.hdr d)) (hQ : ∀ c ∈ m.children, Q d c)
+    (child : MTree r d) (hci : m.children[mds_idx m.childHdrs (k.dig 0)]? = some child)
+    (hh : MHolds s.heap (d + 1) m x) (hnd : (md_ids (d + 1) m).Nodup)
+    (haddr : ∀ id ∈ md_ids (d + 1) m, id.addr = cfg.addr)
+    (hsz : ∀ ks old child' c1, MTree.set cfg d child k v s.ctx = .ok (ks, old, child', c1) →
+      (MTree.hdr d child').size < 2^32)
+    (ihc : mds_setRelF eb rs cfg k v depth d child none s) :
+    mds_setRelF eb rs cfg k v (depth + 1) (d + 1) m x s := by
+  have hheap : s.heap (MTree.hdr d child).id = some (md_tree d child none) :=
+    (hh.2 child (List.mem_of_getElem? hci)).root
+  have hhi : m.childHdrs[mds_idx m.childHdrs (k.dig 0)]? = some (MTree.hdr d child) := by
+    have : (m.children.map (MTree.hdr d))[mds_idx m.childHdrs (k.dig 0)]? = some (MTree.hdr d child) := by
+      rw [List.getElem?_map, hci]; rfl
+    rw [← hhdrs] at this; exact this
+  unfold mds_setRelF at ihc ⊢
+  rw [mds_model_set_succ cfg d m k v s.ctx child hci]
+  have hil : mds_idx m.childHdrs (k.dig 0) < m.childHdrs.length := (List.getElem?_eq_some_iff.mp hhi).1
+  have hgetD : m.childHdrs.getD (mds_idx m.childHdrs (k.dig 0)) default = MTree.hdr d child := by
+    simp [List.getD, hhi]
+  have hheap' : s.heap (m.childHdrs.getD (mds_idx m.childHdrs (k.dig 0)) default).id = some (md_tree d child none) := by
+    rw [hgetD]; exact hheap
+  rcases hq : MTree.set cfg d child k v s.ctx with e | ⟨ks, old, child', c1⟩
+  · rw [hq] at ihc
+    obtain ⟨root', s1, h1⟩ := ihc
+    refine ⟨.metaSlab (md_meta m x), s1, ?_⟩
+    show MapSlab_Set _ _ (.metaSlab (md_meta m x)) _ _ _ _ _ _ _ = _
+    simp only [MapSlab_Set]
+    rw [Ob_MapMetaDataSlab_Set_step_childErr cfg.T eb rs m x s s1 k v depth hhk hfk hlen hil (md_tree d child none)
+      root' none none e hheap' h1]
+  · rw [hq] at ihc
+    obtain ⟨s1, h1, h2, h3, hpost⟩ := ihc
+    subst h2
+    have hsz' := hsz ks old child' s1.ctx hq
+    obtain ⟨hpre, hk1, As, Bs, e1, e2⟩ := mds_Pre_after_child (Q := Q) m x child child' _ hci hh hnd haddr hhdrs hQ
+      (hQset d child child' ks old _ _ (hQ child (List.mem_of_getElem? hci)) hq) hpost
+    have hgen : MapSlab_Set (envD cfg.T eb rs) (MapMetaDataSlab_Set (envD cfg.T eb rs) (depth + 1))
+        (md_tree (d + 1) m x) s () k (u64 0) (u64 (k.dig 0)) (.key k) (.val v) =
+        (mds_stepSpec cfg.T eb rs (md_meta m x) (mds_idx m.childHdrs (k.dig 0)) (some (.key ks)) (old.map .val)
+          (md_tree d child' none) s1).map
+          (fun r_ => (r_.1, r_.2.1, r_.2.2.1, MapSlab.metaSlab r_.2.2.2.1, r_.2.2.2.2)) := by
+      show MapSlab_Set _ _ (.metaSlab (md_meta m x)) _ _ _ _ _ _ _ = _
+      simp only [MapSlab_Set]
+      rw [Ob_MapMetaDataSlab_Set_step cfg.T eb rs m x s s1 k v depth hhk hfk hlen hil (md_tree d child none)
+        (md_tree d child' none) _ _ hheap' h1]
+      generalize mds_stepSpec _ _ _ _ _ _ _ _ _ = q
+      cases q <;> rfl
+    simp only [mds_afterChild_eq]
+    have hm1 : mds_refresh (md_meta m x) (mds_idx m.childHdrs (k.dig 0)) (md_hdr (MTree.hdr d child')) =
+        md_meta (mds_metaAfter m child' (mds_idx m.childHdrs (k.dig 0))) x :=
+      mds_refresh_md_meta m x _ (MTree.hdr d child') (m.children.set (mds_idx m.childHdrs (k.dig 0)) child')
+    cases hf : MTree.isFull cfg.T d child' with
+    | true =>
+      have ht := hS cfg.addr d _ x child' _ s1 hpre hk1 hf
+      have hss : mds_stepSpec cfg.T eb rs (md_meta m x) (mds_idx m.childHdrs (k.dig 0)) (some (.key ks))
+          (old.map .val) (md_tree d child' none) s1 =
+          mds_tail (some (.key ks)) (old.map .val)
+            (rs.splitChild (md_meta (mds_metaAfter m child' (mds_idx m.childHdrs (k.dig 0))) x) s1
+              (md_tree d child' none) (Int.ofNat (mds_idx m.childHdrs (k.dig 0)))) := by
+        simp only [mds_stepSpec, mds_hdr_tree, mds_isFull_tree cfg.T eb rs d child' none hsz' hT1, hf,
+          Option.getD_some, if_true, hm1]
+      simp only [if_true]
+      rcases hsp : MMetaSlab.splitChildSlab (mds_metaAfter m child' (mds_idx m.childHdrs (k.dig 0))) child'
+        (mds_idx m.childHdrs (k.dig 0)) s1.ctx with e | ⟨m', c'⟩
+      · rw [hsp] at ht
+        obtain ⟨a, s', w, hr⟩ := ht
+        refine ⟨.metaSlab a, s', ?_⟩
+        rw [hgen, hss, hr]; rfl
+      · rw [hsp] at ht
+        obtain ⟨s', w, hr, hc, hpp, hpo⟩ := ht
+        refine ⟨s', ?_, hc, by rw [hpp, h3], mds_compose_post e1 e2 hpost hpo⟩
+        rw [hgen, hss, hr]; rfl
+    | false =>
+      simp only [Bool.false_eq_true, if_false]
+      cases hu : MTree.isUnderflow cfg.T d child' with
+      | some u =>
+        have ht := hM cfg.addr d _ x child' _ u s1 hpre hk1 hf hu
+        have hss : mds_stepSpec cfg.T eb rs (md_meta m x) (mds_idx m.childHdrs (k.dig 0)) (some (.key ks))
+            (old.map .val) (md_tree d child' none) s1 =
+            mds_tail (some (.key ks)) (old.map .val)
+              (rs.mergeOrRebalance (md_meta (mds_metaAfter m child' (mds_idx m.childHdrs (k.dig 0))) x) s1
+                (md_tree d child' none) (Int.ofNat (mds_idx m.childHdrs (k.dig 0))) (u32 u)) := by
+          simp only [mds_stepSpec, mds_hdr_tree, mds_isFull_tree cfg.T eb rs d child' none hsz' hT1, hf,
+            mds_isUnderflow_tree_some cfg.T eb rs d child' none u hsz' hT2 hu, Option.getD_some,
+            Bool.false_eq_true, if_false, if_true, hm1]
+        simp only []
+        rcases hsp : MMetaSlab.mergeOrRebalanceChildSlab cfg.T (mds_metaAfter m child' (mds_idx m.childHdrs (k.dig 0)))
+          child' (mds_idx m.childHdrs (k.dig 0)) u s1.ctx with e | ⟨m', c'⟩
+        · rw [hsp] at ht
+          obtain ⟨a, s', w, hr⟩ := ht
+          refine ⟨.metaSlab a, s', ?_⟩
+          rw [hgen, hss, hr]; rfl
+        · rw [hsp] at ht
+          obtain ⟨s', w, hr, hc, hpp, hpo⟩ := ht
+          refine ⟨s', ?_, hc, by rw [hpp, h3], mds_compose_post e1 e2 hpost hpo⟩
+          rw [hgen, hss, hr]; rfl
+      | none =>
+        have hss : mds_stepSpec cfg.T eb rs (md_meta m x) (mds_idx m.childHdrs (k.dig 0)) (some (.key ks))
+            (old.map .val) (md_tree d child' none) s1 =
+            some (some (.key ks), old.map .val, none, md_meta (mds_metaAfter m child' (mds_idx m.childHdrs (k.dig 0))) x,
+              s1.store m.hdr.id (.metaSlab (md_meta (mds_metaAfter m child' (mds_idx m.childHdrs (k.dig 0))) x))) := by
+          simp only [mds_stepSpec, mds_hdr_tree, mds_isFull_tree cfg.T eb rs d child' none hsz' hT1, hf,
+            mds_isUnderflow_tree cfg.T eb rs d child' none hsz' hT2 hu, Option.getD_some,
+            Bool.false_eq_true, if_false, hm1]
+          rfl
+        simp only []
+        refine ⟨s1.store m.hdr.id (.metaSlab (md_meta (mds_metaAfter m child' (mds_idx m.childHdrs (k.dig 0))) x)),
+          ?_, rfl, h3, mds_compose_post e1 e2 hpost (mds_Post_store x hpre)⟩
+        rw [hgen, hss]; rfl
+
+/-- THE WHOLE `MTree.set` OVER THE HEAP, given the tails: for a tree `t` held by the heap (identifiers pairwise distinct,
+    the owner's, fresh identifiers free), under the tail hypotheses on `rs.splitChild` / `rs.mergeOrRebalance` and the
+    path conditions `mds_PathF`, the generated `MapSlab.Set` dispatch returns the translation of the model's
+    `MTree.set cfg d t k v s.ctx` on EVERY branch of `afterChild`: stored key, old value, no error, `md_tree d t' x`, a
+    storage with the model's `Ctx` whose heap holds `t'`, with the frame relative to `md_ids d t ∪ md_ids d t'`
+    (`mds_Post`, which gives `MHeapPost`); a model error comes back as that error value.
+    `hQset`: the provider's invariant `Q` is preserved by the model's `set`; `hmono`: the model's `MDataSlab.set` does
+    not lower the allocation counter. -/
+theorem Ob_MapSlab_Set_heap_of_tails (cfg : MCfg) (k : MKey) (v : Elem) (P : DG r → Prop)
+    (Q : (d : Nat) → MTree r d → Prop) (hE : ElemsSpec cfg k v P eb)
+    (hS : MSplitTail cfg.T rs Q) (hM : MMorTail cfg.T rs Q)
+    (hQset : ∀ d (t t' : MTree r d) ks old c c', Q d t → MTree.set cfg d t k v c = .ok (ks, old, t', c') → Q d t')
+    (hmono : ∀ (sl : MDataSlab r) c ks old sl' c', MDataSlab.set cfg sl k v c = .ok (ks, old, sl', c') → c.ctr ≤ c'.ctr)
+    (hT1 : maxThr cfg.T < 2^32) (hT2 : minThr cfg.T < 2^32) (hhk : k.dig 0 < 2^64) :
+    ∀ (d depth : Nat) (t : MTree r d) (x : Option DX) (s : MHSt r), d ≤ depth → MHolds s.heap d t x →
+      x.isSome = mds_rootFlag d t → (md_ids d t).Nodup → (∀ id ∈ md_ids d t, id.addr = cfg.addr) →
+      mds_FreshFree cfg.addr s → mds_PathF cfg k v P Q d t s.ctx →
+      match MTree.set cfg d t k v s.ctx with
+      | .ok (ks, old, t', c') =>
+        ∃ s', MapSlab_Set (envD cfg.T eb rs) (MapMetaDataSlab_Set (envD cfg.T eb rs) depth) (md_tree d t x) s () k
+            (u64 0) (u64 (k.dig 0)) (.key k) (.val v) =
+              some (some (.key ks), old.map .val, none, md_tree d t' x, s') ∧
+          s'.ctx = c' ∧ s'.popped = s.popped ∧ mds_Post cfg.addr s s' d t t' x
+      | .error e =>
+        ∃ root' s', MapSlab_Set (envD cfg.T eb rs) (MapMetaDataSlab_Set (envD cfg.T eb rs) depth) (md_tree d t x) s () k
+            (u64 0) (u64 (k.dig 0)) (.key k) (.val v) = some (none, none, some e, root', s') := by
+  intro d
+  induction d with
+  | zero =>
+    intro depth t x s _ hh hx hnd haddr ffs hp
+    have h := mds_set_data eb rs cfg k v P hE t x hx hp.1 s hp.2.1 hp.2.2 depth
+    unfold mds_setRel at h
+    rcases hq : MTree.set cfg 0 t k v s.ctx with e | ⟨ks, old, t', c'⟩
+    · rw [hq] at h
+      exact ⟨_, _, h⟩
+    · rw [hq] at h
+      obtain ⟨s', h1, h2, h3, hrel⟩ := h
+      exact ⟨s', h1, h2, h3, mds_Post_of_HeapRel hrel hnd haddr hh ffs (by rw [h2]; exact hmono t s.ctx ks old t' c' hq)⟩
+  | succ d ih =>
+    intro depth t x s hd hh _ hnd haddr ffs hp
+    obtain ⟨hfk, hlen, hhdrs, hQ, child, hci, hroot, hpc, hsz⟩ := hp
+    cases depth with
+    | zero => omega
+    | succ depth' =>
+      have hmem : child ∈ MMetaSlab.children t := List.mem_of_getElem? hci
+      have hhc : MHolds s.heap d child none := hh.2 child hmem
+      have hsub : ∀ id ∈ md_ids d child, id ∈ md_ids (d + 1) t :=
+        fun id hid => List.mem_cons_of_mem _ (List.mem_flatMap.mpr ⟨child, hmem, hid⟩)
+      have hndc : (md_ids d child).Nodup := by
+        obtain ⟨A, B, hAB, _⟩ := mds_split_at (MMetaSlab.children t) _ child hci
+        have hids : md_ids (d + 1) t =
+            (MMetaSlab.hdr t).id :: (A.flatMap (md_ids d) ++ (md_ids d child ++ B.flatMap (md_ids d))) := by
+          show (MMetaSlab.hdr t).id :: (MMetaSlab.children t).flatMap (md_ids d) = _
+          rw [hAB]; simp
+        rw [hids] at hnd
+        exact (List.nodup_append.mp (List.nodup_append.mp (List.nodup_cons.mp hnd).2).2.1).1
+      exact mds_set_meta_full eb rs cfg k v Q hS hM hQset hT1 hT2 hhk d depth' t x s hfk hlen hhdrs hQ child hci hh
+        hnd haddr hsz
+        (ih depth' child none s (by omega) hhc (by rw [hroot]; rfl) hndc (fun id hid => haddr id (hsub id hid)) ffs hpc)
+
+end
+
 end
 
 end Atree.TransEq
